@@ -65,8 +65,10 @@ def run_align(case):
     minimal = len(xs) == 1 and len(plane) == 1
     out.nontrivial = case['angle'] > 15 or np.linalg.norm(M_t) > 1.5 or minimal
     out.feat('core-envelope' if core else 'outer-band', 'minimal-layout' if minimal else 'rich-layout', 'noisy' if case['noise'] else 'noise-free',
-             'stations-%d' % min(len(true_bs), 3))
-    desc = 'angle=%.2f axis=%r shift=%r stations=%d x=%r plane=%r' % (case['angle'], case['axis'], case['shift'], len(true_bs), case['x_points'], case['plane_points'])
+             'stations-%d' % min(len(true_bs), 3), *(['almost-aligned-already'] if case.get('tiny') else []))
+    if case.get('tiny'):
+        out.nontrivial = True
+    desc = 'angle=%.4f axis=%r shift=%r stations=%d x=%r plane=%r' % (case['angle'], case['axis'], case['shift'], len(true_bs), case['x_points'], case['plane_points'])
     try:
         result, tr = LighthouseSystemAligner.align(origin, xs, plane, cur_bs)
     except Exception as e:  # noqa
@@ -131,6 +133,10 @@ def run_align(case):
                 out.fail('align:flip-not-corrected:floor', '%s: first base station at z=%.3f' % (desc, result[first].translation[2]))
         return out
     true_err = max(float(np.max(np.abs(result[k].translation - true_bs[k].translation))) for k in true_bs)
+    if case.get('tiny') and err > 1e-5 and not below:
+        # a system that is almost aligned already (hundredths of a degree, tenths of a millimetre) is aligned like any other:
+        # from that start the fit is exact to a few nanometres, 10 micrometres is a thousand times that
+        out.fail('align:tiny-misalignment-left', '%s: max sample error %.3e m after aligning, base station error %.3e m' % (desc, err, true_err))
     if err > 1e-3 or below:
         # mechanism: does the library's own residual converge with more evaluations from the same start?
         res = scipy.optimize.least_squares(LighthouseSystemAligner._calc_residual, np.zeros(6), x_scale='jac', ftol=1e-12, xtol=1e-12, gtol=1e-12,
@@ -168,8 +174,11 @@ def align_case(draw, flip=False):
     axis = draw(_unit)
     if flip:
         axis = draw(st.one_of(_unit, st.sampled_from([[1.0, 0.0, 0.0], [0.0, 1.0, 0.0], [0.0, 0.0, 1.0], [1.0, 1.0, 0.0]])))
+    tiny = (not flip) and draw(st.sampled_from([False, False, False, False, True]))
+    if tiny:
+        angle, shift = angle / 30.0 * 0.02, [x / 3.0 * 0.0008 for x in shift]
     return {'axis': axis, 'angle': angle, 'shift': shift, 'stations': stations, 'x_points': x_points, 'plane_points': plane_points,
-            'noise': 0 if flip else draw(st.sampled_from([0, 0, 0, 7])), 'flip': flip}
+            'noise': 0 if (flip or tiny) else draw(st.sampled_from([0, 0, 0, 7])), 'flip': flip, 'tiny': tiny}
 
 
 # ---------------------------------------------------------------- scaling
@@ -212,6 +221,14 @@ def run_scale(case):
         samples.append(samples[0])
         true_cf.append(true_cf[0])
         out.feat('aliased-input')
+    if case.get('blank') is not None:
+        # a pose for which no base station delivered angles (it stays in both lists, it just contributes nothing)
+        j = case['blank'] % (len(est_cf) + 1)
+        extra = Pose(_rot([0, 0, 1], 0.3), np.array([0.4, -0.2, 0.3]) / k)
+        est_cf.insert(j, extra)
+        true_cf.insert(j, Pose(_rot([0, 0, 1], 0.3), np.array([0.4, -0.2, 0.3])))
+        samples.insert(j, LhCfPoseSample(angles_calibrated={}))
+        out.feat('sample-without-angles')
     snap = (_snapshot(est_bs), _snapshot(est_cf))
     desc = 'k=%r stations=%d cfs=%r alias=%r' % (k, len(true_bs), [(c['pos'], c['tilt']) for c in case['cfs']], case.get('alias'))
 
@@ -290,7 +307,8 @@ def scale_case(draw):
     cfs = [{'pos': [draw(st.floats(-1, 1)), draw(st.floats(-1, 1)), draw(st.floats(0.0, 1.0))], 'yaw': draw(st.floats(-math.pi, math.pi)),
             'tilt': draw(st.sampled_from([0.0, 0.0, 5.0, 10.0, 20.0])), 'axis': [draw(st.floats(-1, 1)), draw(st.floats(-1, 1)) + 1.5, 0.0]} for _ in range(m)]
     return {'stations': stations, 'cfs': cfs, 'k': draw(st.one_of(st.floats(0.2, 5.0), st.sampled_from([1.0, 0.5, 2.0, 1.26]))), 'ref': draw(st.integers(0, 4)),
-            'alias': draw(st.sampled_from([False, False, True])), 'ref_turn': draw(st.sampled_from([0, 2, 10, 25]))}
+            'alias': draw(st.sampled_from([False, False, True])), 'ref_turn': draw(st.sampled_from([0, 2, 10, 25])),
+            'blank': draw(st.sampled_from([None, None, None, 0, 1, 2]))}
 
 
 def subchecks(tier):
